@@ -95,9 +95,10 @@ def loc_of(c):
 EPS40 = 2.0 ** -40
 
 # cost models: what the CLI uses (service.createDetectorConfig: "python", no boilerplate discount, classifier gate when
-# enable_dfa) and the other models of NewCloneDetector
+# enable_dfa; skip_docstrings from the configuration, default true since the repair of C17-G5 — "cli-nodfa" keeps the
+# docstrings, i.e. [clones] skip_docstrings = false) and the other models of NewCloneDetector
 COST_VARIANTS = {
-    "cli": dict(CostModelType="python", ReduceBoilerplateSimilarity=False, BoilerplateMultiplier=0, EnableDFAAnalysis=True, SkipDocstrings=False),
+    "cli": dict(CostModelType="python", ReduceBoilerplateSimilarity=False, BoilerplateMultiplier=0, EnableDFAAnalysis=True, SkipDocstrings=True),
     "cli-nodfa": dict(CostModelType="python", ReduceBoilerplateSimilarity=False, BoilerplateMultiplier=0, EnableDFAAnalysis=False, SkipDocstrings=False),
     "python-boilerplate": dict(CostModelType="python", ReduceBoilerplateSimilarity=True, BoilerplateMultiplier=0.1, EnableDFAAnalysis=False),
     "python-ignore": dict(CostModelType="python", IgnoreLiterals=True, IgnoreIdentifiers=True, EnableDFAAnalysis=False),
